@@ -848,7 +848,8 @@ def mon_cancel(tr, pid='C09'):
                         not any(e['ev'] in ('feedback_completed', 'gen_finally') for e in pe):
                     out.append(viol('producer_not_cancelled', '%s:producer_not_cancelled:%s:%s' % (pid, kind, dirn), **facts))
             # production stops: nothing yielded / handed after the CANCEL was processed
-            late_hand = [e for e in pe if e['ev'] == 'hand' and e['seq'] > cancel_recv and e.get('run', 1) == 1]
+            # (a generator publisher that is asked for more after it was cancelled must not start over either: run > 1)
+            late_hand = [e for e in pe if e['ev'] == 'hand' and e['seq'] > cancel_recv]
             if late_hand:
                 out.append(viol('production_after_cancel', '%s:production_after_cancel:%s:%s' % (pid, kind, dirn),
                                 n=len(late_hand), **facts))
